@@ -233,7 +233,7 @@ def run_c07(prop, cfg, tier, seed):
         if w.get("kind") == "mid":
             i2, m2 = run_mid_cases([w["case"]])
             c = classify(w["case"], i2[0], m2[0])
-            if c and c[0] == "known" and c[1] == fid:
+            if (c and c[0] == "known" and c[1] == fid) or (w.get("expect_verdict") and i2[0].split(" ", 3)[2] == w["expect_verdict"]):
                 kf.append("KNOWN-FINDING: property=%s %s %s" % (prop, fid, f["what"]))
     wall = time.time() - t0
     cov = {"obligations": len(audit["theorems"]), "discharged": len(audit["theorems"]) if lean_ok else 0,
@@ -376,6 +376,9 @@ def run_c19(prop, cfg, tier, seed):
                 os.makedirs(keep, exist_ok=True)
                 shutil.copyfile(os.path.join(emit, f), os.path.join(keep, f))
                 tool_viol.append((os.path.join(keep, f), fl, n))
+    # history independence: what BuildParser emits must not depend on what the process built before
+    rh = tool_check.run_tool("pvhist", seed, 40 if tier == "quick" else 400, [], pigeon=False, prop=prop)
+    hist_fail = [f for f in (rh.get("failures") or [])]
     printed = []
     nviol = 0
 
@@ -394,6 +397,10 @@ def run_c19(prop, cfg, tier, seed):
         rep("nondeterminism", {"mid_case": cl, "det": dl[:2000], "why": why, "replay_cmd": "echo '<mid_case>' | /verif/build/bin/pvmid -det 200"}, True)
     for cl, dl, ml in disagree:
         rep("correspondence", {"mid_case": cl, "det": dl[:2000], "model": ml[:2000], "why": "PrepareGrammar's result differs from the model with sorted visiting order"}, False)
+    for f in hist_fail[:3]:
+        f = tool_check.keep_failure_file(prop, dict(f))
+        rep("nondeterminism", {"why": "pvhist: " + str(f.get("detail"))[:700], "file": f.get("file"), "flags": f.get("flags"),
+                               "replay_cmd": "/verif/build/bin/pvhist -seed %d -n %d" % (seed, 40 if tier == "quick" else 400)}, f.get("kind") != "harness")
     for f in opt_nd:
         f = tool_check.keep_failure_file(prop, dict(f))
         rep("nondeterminism", {"why": "ast.Optimize gives different results on identical copies of one grammar: " + str(f.get("detail"))[:600], "file": f.get("file"),
@@ -409,6 +416,7 @@ def run_c19(prop, cfg, tier, seed):
            "evaluations": len(gl) * k + tool_runs, "distinct_nontrivial": len(gl) + len(sel),
            "rule": "each generated grammar is analysed %d times in one process by builder.PrepareGrammar (Go map order varies per call) and all outcomes (flags of every node, left-recursive set, leader, verdict) must be identical and equal to the model's result for the sorted visiting order; %d Makefile generation rules (+ corpus grammars) are run %d times in fresh processes and compared byte for byte" % (k, len(sel), reps),
            "grammars": len(gl), "in_process_builds": len(gl) * k, "tool_runs": tool_runs,
+           "history_independence": {"grammars": rh.get("evaluations"), "builds": (rh.get("stats") or {}).get("builds"), "failures": rh.get("failure_count")},
            "optimizer_determinism": {"grammars": ro.get("evaluations"), "nondeterministic": len(opt_nd), "pipeline_grammars": len(files), "flag_sets": flagsets},
            "samples": [{"case": gl[0], "det": det[0][:300]}] if gl else [],
            "explanation": "determinism is decided by repeated execution under Go's randomised map order plus a kernel-checked proof that the (repaired) analysis visits rules in an order that does not depend on the map order"}
@@ -416,5 +424,5 @@ def run_c19(prop, cfg, tier, seed):
                         ["byte-identity of the emitted file beyond the analysis (emission order = grammar order) is checked by execution only"], wall, nviol)
     for l in printed:
         print(l)
-    log("%s: %d grammars x %d builds, %d tool runs, %d violations, %d disagreements, lean_ok=%s %.1fs" % (prop, len(gl), k, tool_runs, len(viol) + len(tool_viol) + len(opt_nd), len(disagree), lean_ok, wall))
+    log("%s: %d grammars x %d builds, %d tool runs, %d violations, %d disagreements, lean_ok=%s %.1fs" % (prop, len(gl), k, tool_runs, len(viol) + len(tool_viol) + len(opt_nd) + len(hist_fail), len(disagree), lean_ok, wall))
     return 1 if nviol else 0
